@@ -862,9 +862,10 @@ class Filter(base.Filter):
 
             for attr in self.svg_attr_val_allows_ref:
                 if attr in attrs:
-                    attrs[attr] = re.sub(r'url\s*\(\s*[^#\s][^)]+?\)',
+                    attrs[attr] = re.sub(r'url\s*\(\s*[^#\s)][^)]*\)',
                                          ' ',
-                                         unescape(attrs[attr]))
+                                         unescape(attrs[attr]),
+                                         flags=re.I)
             if (token["name"] in self.svg_allow_local_href and
                 (namespaces['xlink'], 'href') in attrs and re.search(r'^\s*[^#\s].*',
                                                                      attrs[(namespaces['xlink'], 'href')])):
